@@ -62,7 +62,7 @@ pub fn digests(seed: u64, n: usize) -> Vec<String> {
         if t.via_stdin { c.stdin = In::File("x.fml".into()); }
         c.env = t.env.clone();
         c.argv0 = t.argv0.clone();
-        c.shim = Some(ShimCfg { seed: t.hash_seed, plan, clock: t.clock.clone().or(Some("1700000000000000000:1000".into())), junk: t.junk, budget: None });
+        c.shim = Some(ShimCfg { seed: t.hash_seed, plan, clock: t.clock.clone().or(Some("1700000000000000000:1000".into())), junk: t.junk, budget: None, ..Default::default() });
         let r = run_child(&dir, &c);
         let log = std::fs::read(dir.join("h.csv")).unwrap_or_default();
         let _ = std::fs::remove_dir_all(&dir);
